@@ -35,7 +35,19 @@ type VerifC04Part struct {
 	Retries    []int // VerifC04Steer only: retries of Msgs
 }
 
+// VerifC04Resend: the same produce set built and encoded a SECOND time (as the bridge does with the set retryBatch re-sends:
+// the same RecordBatch and Record objects, whose length fields and serialization caches hold what the first pass left).
+type VerifC04Resend struct {
+	Done      bool
+	Panic     string
+	EncodeErr string
+	DecodeErr string
+	Same      bool // the bytes are those of the first encoding
+	Parts     []VerifC04Part
+}
+
 type VerifC04Result struct {
+	Resend     VerifC04Resend
 	AddErrs    []int // per message: 0 ok, 1 Encode() error, 2 out-of-sequence assertion, 9 other
 	Version    int16 // req.Version
 	Acks       int16
@@ -151,6 +163,45 @@ func VerifC04Build(conf *Config, pid int64, epoch int16, msgs []VerifC04Msg) (re
 		total += len(parts)
 	}
 	res.ExtraParts = total - seen
+	if conf.Version.IsAtLeast(V0_11_0_0) {
+		// only record batches are ever re-sent as a set (idempotent retryBatch)
+		rs := &res.Resend
+		rs.Done = true
+		var buf2 []byte
+		func() {
+			defer func() {
+				if r := recover(); r != nil {
+					rs.Panic = fmt.Sprint(r)
+				}
+			}()
+			req2 := ps.buildRequest()
+			var err error
+			buf2, err = encode(&request{correlationID: 77, clientID: conf.ClientID, body: req2}, conf.MetricRegistry)
+			if err != nil {
+				rs.EncodeErr = err.Error()
+			}
+		}()
+		if rs.Panic == "" && rs.EncodeErr == "" {
+			rs.Same = bytes.Equal(buf, buf2)
+			func() {
+				defer func() {
+					if r := recover(); r != nil {
+						rs.DecodeErr = "panic: " + fmt.Sprint(r)
+					}
+				}()
+				d2, _, err := decodeRequest(bytes.NewReader(buf2))
+				if err != nil {
+					rs.DecodeErr = err.Error()
+					return
+				}
+				if pr2, ok := d2.body.(*ProduceRequest); ok {
+					rs.Parts = VerifC04RequestParts(pr2)
+				} else {
+					rs.DecodeErr = "not a produce request"
+				}
+			}()
+		}
+	}
 	return res, h
 }
 
